@@ -1,6 +1,7 @@
 import AriesVerif.C17.Guards
 import AriesVerif.C17.Props
 import AriesVerif.C17.Algebra
+import AriesVerif.C17.Cred
 #print axioms Bbs.bitvector_testBit
 #print axioms Bbs.indexes_of_bitvector
 #print axioms Bbs.C17_payload
@@ -18,3 +19,10 @@ import AriesVerif.C17.Algebra
 #print axioms Bbs.Guards.arity_is_exact
 #print axioms Bbs.Guards.index_in_range_checked
 #print axioms Bbs.Guards.enough_messages_checked
+#print axioms Bbs.Cred.derived_only_selected
+#print axioms Bbs.Cred.derived_all_selected
+#print axioms Bbs.Cred.hidden_stays_hidden
+#print axioms Bbs.Cred.revealIdx_in_range
+#print axioms Bbs.Cred.revealIdx_discloses
+#print axioms Bbs.Cred.revealIdx_ascending
+#print axioms Bbs.Cred.perProof_same_document
